@@ -11,6 +11,7 @@
   No Mathlib.  Everything is structurally recursive (fuel where needed) so that the kernel can
   evaluate it (`decide +kernel` witnesses in Props/C20.lean).
 -/
+import IronCalc.Generated.Pow10
 namespace IronCalc.Format
 
 /-! ## Numeric toolkit (non-negative rationals `num / den`, `den > 0`) -/
@@ -441,11 +442,125 @@ def stageA (v : Mag) (d : Nat) : List Char × List Char :=
   let ip := if intNumber = 0 then [] else displayInt intNumber
   (ip, getFractPart r d ip.length)
 
+/-! ## Scientific parts (`0.00E+00`, `##0.0E+0`, `E-` variants) -/
+
+/-- `10.0_f64.powf(k)`: libm's `pow` is not correctly rounded, so the value comes from the table
+    regenerated from the running code (`Generated/Pow10.lean`); `none` = ±inf / outside the table -/
+def pow10f64 (k : Int) : Option Mag :=
+  let i := k - IronCalc.Generated.Pow10.lo
+  if i < 0 then none else
+  match IronCalc.Generated.Pow10.bits[i.toNat]? with
+  | none => none
+  | some b => (decodeBits b).map (·.2)
+
+/-- the first 12 significant decimal digits of `num/den > 0` (truncated), given `k = ⌊log10⌋` -/
+def first12 (num den : Nat) (k : Int) : Nat :=
+  let s : Int := 11 - k
+  if s ≥ 0 then (num * pow10 s.toNat) / den else num / (den * pow10 (-s).toNat)
+
+/-- models `value_abs.log10().floor()`.  libm's `log10` is not correctly rounded: within a few ulps
+    of a power of ten its floor can go either way.  The model answers only
+    * outside the zone where the first 12 significant digits are `999999999999` or `100000000000`
+      (there `⌊log10 v⌋` is the exact floor: the distance to an integer is ≥ 4e-12 ≫ 2 ulp), and
+    * inside the zone for the doubles nearest to a power of ten (`RN(10^j)` ↦ `j`; validated on all
+      of them by every run; subnormal `RN(10^j)` are far from `10^j` and fall under the first rule);
+    `none` = inside the zone (not modelled; oracle only). -/
+def log10Floor (v : Mag) : Option Int :=
+  let k := ilog10 v.num v.den
+  let rnPow (j : Int) : Option Mag := if j ≥ 0 then rn53 (pow10 j.toNat) 1 else rn53 1 (pow10 (-j).toNat)
+  let n := first12 v.num v.den k
+  if n = pow10 12 - 1 ∨ n = pow10 11 then
+    -- inside the zone only the doubles nearest to the power of ten are modelled
+    if rnPow k = some v then some k
+    else if rnPow (k + 1) = some v then some (k + 1)
+    else none
+  else some k
+
+inductive SciOut where
+  | ok (m : Mag) (ep : List Char) (expNeg : Bool)
+  | nonfinite
+  | zone
+deriving DecidableEq, Repr
+
+/-- the scientific branch of the `ParsePart::Number` arm up to the digit vectors: `v` is the scaled
+    magnitude, `d = precision`.  Result: the mantissa (a double in [1, 10], or 0), the digits of
+    |exponent|, and `exponent_is_negative` (`value_abs < 1.0`, tested BEFORE the scaling). -/
+def sciStage (v : Mag) (d : Nat) : SciOut :=
+  let l := (displayInt v.floor).length        -- format!("{}", value.abs().floor()).len()
+  match toPrecision v (d + l) with
+  | none => .nonfinite
+  | some v1 =>
+    if v1.m = 0 then .ok ⟨0, 0⟩ ['0'] false
+    else
+      match log10Floor v1 with
+      | none => .zone
+      | some k =>
+        match pow10f64 k with
+        | none => .nonfinite
+        | some p10 =>
+          if p10.m = 0 then .nonfinite else        -- division by 0.0 gives inf
+          match rn53 (v1.num * p10.den) (v1.den * p10.num) with
+          | none => .nonfinite
+          | some q =>
+            match toPrecision q 15 with
+            | none => .nonfinite
+            | some m => .ok m (natDigits k.natAbs) (decide (v1.num < v1.den))
+
+/-- the digits `ep[0], …, ep[hi-1]` (models `for i in 0..number_index + 1` of the exponent arm) -/
+def emitExp (ep : List Char) : Nat → Nat → Nat → List Char → Bool → List Char × Bool
+  | 0, _, _, acc, bad => (acc, bad)
+  | fuel + 1, i, hi, acc, bad =>
+    if i < hi then
+      match ep[i]? with
+      | some c => emitExp ep fuel (i + 1) hi (acc ++ [c]) bad
+      | none => emitExp ep fuel (i + 1) hi acc true
+    else (acc, bad)
+
+/-- the token loop with the exponent arm (`digit.number.is_exponent()`); every other token as in
+    `layoutStep` -/
+def layoutStepSci (p : NumberPart) (loc : Loc) (neg : Bool) (ip fp ep : List Char) (expNeg : Bool)
+    (s : LState) : TT → LState
+  | .digit kind index .exp =>
+    let s := if index = 0 then
+        { s with text := s.text ++ (if expNeg then ['E', '-'] else if p.scientificMinus then ['E'] else ['E', '+']) }
+      else s
+    let lExp : Int := ep.length
+    let edc : Int := p.exponentDigitCount
+    let numberIndex : Int := lExp - (edc - index)
+    if lExp ≤ edc then
+      if !(numberIndex < 0 && kind = '#') then
+        if numberIndex < 0 then { s with text := s.text ++ [if kind = '?' then ' ' else '0'] }
+        else
+          match ep[numberIndex.toNat]? with
+          | some c => { s with text := s.text ++ [c] }
+          | none => { s with panicked := true }
+      else s
+    else
+      let hi := (numberIndex + 1).toNat
+      let (t, bad) := emitExp ep (ep.length + 1) 0 hi s.text s.panicked
+      { s with text := t, panicked := bad, digitIndex := s.digitIndex + numberIndex + 1 }
+  | t => layoutStep p loc neg ip fp s t
+
+def layoutSci (p : NumberPart) (loc : Loc) (neg : Bool) (ip fp ep : List Char) (expNeg : Bool) : LState :=
+  p.tokens.foldl (layoutStepSci p loc neg ip fp ep expNeg) {}
+
 def formatPart (p : NumberPart) (loc : Loc) (neg : Bool) (x : Mag) : Out :=
-  if p.isScientific || p.precision > 22 || p.percent > 11 || p.comma > 7 then .unsupported else
+  if p.precision > 22 || p.percent > 11 || p.comma > 7 then .unsupported else
   match scaleValue x p.percent p.comma with
   | none => .nonfinite
   | some v =>
+    if p.isScientific then
+      match sciStage v p.precision with
+      | .nonfinite => .nonfinite
+      | .zone => .unsupported
+      | .ok m ep expNeg =>
+        let intNumber := if p.precision = 0 then m.round else m.floor
+        let ip := if intNumber = 0 then [] else displayInt intNumber
+        let fp := getFractPart m p.precision ip.length
+        let isNeg := neg && (!ip.isEmpty || fp.any (· ≠ '0'))
+        let s := layoutSci p loc isNeg ip fp ep expNeg
+        if s.panicked then .panic else .text s.text
+    else
     let (ip, fp) := stageA v p.precision
     let isNeg := neg && (!ip.isEmpty || fp.any (· ≠ '0'))
     let s := layout p loc isNeg ip fp
